@@ -9,6 +9,22 @@ Proof.
   unfold no_handlers, handler_for. destruct (cf_handlers cfg); [reflexivity | discriminate].
 Qed.
 
+(** generic facts about the traversal combinators *)
+Lemma mapM_ok_Forall {A B} (P : A -> Prop) (f : A -> res B) (g : A -> B) l :
+  Forall P l -> (forall x, P x -> f x = Ok (g x)) -> mapM f l = Ok (map g l).
+Proof.
+  intros H Hf. induction H as [|x xs Hx _ IH]; [reflexivity|].
+  simpl. rewrite (Hf x Hx). simpl. fold (mapM f). rewrite IH. reflexivity.
+Qed.
+
+Lemma Forall_forallb_conj {A} (P : A -> Prop) (p : A -> bool) l :
+  Forall P l -> forallb p l = true -> Forall (fun x => P x /\ p x = true) l.
+Proof.
+  intros H. induction H as [|x xs Hx _ IH]; simpl; intros Hp; constructor.
+  - apply andb_true_iff in Hp as [H1 _]. auto.
+  - apply andb_true_iff in Hp as [_ H2]. auto.
+Qed.
+
 Lemma dump_plain_norm hfun V E cfg sm ia ign :
   no_handlers cfg = true ->
   forall v, plain v = true -> jc_dump hfun V E cfg sm ia ign v = Ok (norm v).
@@ -16,18 +32,12 @@ Proof.
   intros Hh. pose proof (no_handlers_none cfg Hh) as Hf.
   induction v using val_ind'; intros Hp; try discriminate Hp; simpl; rewrite Hf; try reflexivity.
   1-4: simpl in Hp;
-       match goal with |- bind ?X _ = _ => assert (HX : X = Ok (map norm l)) end;
-       [ induction H as [|x xs Hx _ IH]; [reflexivity|];
-         simpl in Hp; apply andb_true_iff in Hp as [Hp1 Hp2];
-         rewrite (Hx Hp1); simpl; rewrite (IH Hp2); reflexivity
-       | rewrite HX; reflexivity ].
-  simpl in Hp.
-  match goal with |- bind ?X _ = _ =>
-    assert (HX : X = Ok (map (fun kv => (fst kv, norm (snd kv))) m)) end.
-  { induction H as [|[k x] xs [_ Hx] _ IH]; [reflexivity|].
-    simpl in Hp. apply andb_true_iff in Hp as [Hp1 Hp2]. simpl in Hx.
-    rewrite (Hx Hp1). simpl. rewrite (IH Hp2). reflexivity. }
-  rewrite HX. reflexivity.
+       rewrite (mapM_ok_Forall _ _ norm l (Forall_forallb_conj _ _ _ H Hp)); [reflexivity|];
+       intros x [Hx Hpx]; auto.
+  simpl in Hp. unfold mapM_values.
+  rewrite (mapM_ok_Forall _ _ (fun kv => (fst kv, norm (snd kv))) m
+             (Forall_forallb_conj _ (fun kv => plain (snd kv)) _ H Hp)); [reflexivity|].
+  intros [k x] [[_ Hx] Hpx]. simpl in *. rewrite (Hx Hpx). reflexivity.
 Qed.
 
 (** ** [norm] of plain data *)
@@ -97,9 +107,6 @@ Proof.
 Qed.
 
 (** [leaves] lists primitives only, so "constructor-exact" is literal equality of the lists *)
-Definition is_prim (v : val) : bool :=
-  match v with VNone | VBool _ | VInt _ | VFlt _ | VStr _ => true | _ => false end.
-
 Lemma plain_leaves_prim : forall v, plain v = true -> forallb is_prim (leaves v) = true.
 Proof.
   induction v using val_ind'; intros Hp; try discriminate Hp; try reflexivity; simpl in *.
@@ -107,4 +114,202 @@ Proof.
        apply andb_true_iff in Hp as [Hp1 Hp2]; rewrite forallb_app, (Hx Hp1), (IH Hp2); reflexivity.
   induction H as [|[k x] xs [_ Hx] _ IH]; simpl in *; [reflexivity|].
   apply andb_true_iff in Hp as [Hp1 Hp2]. rewrite forallb_app, (Hx Hp1), (IH Hp2). reflexivity.
+Qed.
+
+(** ** load on descriptor-free JSON shapes is the identity, writes nothing, imports nothing *)
+
+Lemma load_seq_id (f : val -> lres) l :
+  Forall (fun x => f x = (Ok x, x, [])) l -> load_seq f l = (Ok l, l, []).
+Proof.
+  intros H. induction H as [|x xs Hx _ IH]; [reflexivity|].
+  simpl. rewrite Hx. fold (load_seq f). rewrite IH. reflexivity.
+Qed.
+
+Lemma load_items_id (f : val -> lres) m :
+  Forall (fun kx => f (snd kx) = (Ok (snd kx), snd kx, [])) m -> load_items f m = (Ok m, m, []).
+Proof.
+  intros H. induction H as [|[k x] xs Hx _ IH]; [reflexivity|].
+  simpl in *. rewrite Hx. fold (load_items f). rewrite IH. reflexivity.
+Qed.
+
+Lemma load_json_id V E :
+  forall w, json_shape w = true -> no_descriptor w = true ->
+  forall cl, jc_load_m V E cl w = (Ok w, w, []).
+Proof.
+  induction w using val_ind'; intros Hj Hn cl; try discriminate Hj; try reflexivity; simpl in *.
+  - rewrite load_seq_id; [reflexivity|].
+    pose proof (Forall_forallb_conj _ _ _ (Forall_forallb_conj _ _ _ H Hj) Hn) as HF.
+    eapply Forall_impl; [|exact HF]. intros x [[Hx Hjx] Hnx]. auto.
+  - apply andb_true_iff in Hn as [Hd Hn]. rewrite Hd. simpl.
+    rewrite load_items_id; [reflexivity|].
+    pose proof (Forall_forallb_conj _ (fun kv => no_descriptor (snd kv)) _
+                  (Forall_forallb_conj _ (fun kv => json_shape (snd kv)) _ H Hj) Hn) as HF.
+    eapply Forall_impl; [|exact HF]. intros [k x] [[[_ Hx] Hjx] Hnx]. simpl in *. auto.
+Qed.
+
+(** ** load leaves its argument as it found it, up to the position of "__jsonclass__" *)
+
+Definition cv (kv : val * val) : val * val := (fst kv, canon (snd kv)).
+
+Lemma load_seq_arg (f : val -> lres) l :
+  Forall (fun x => canon (lres_arg (f x)) = canon x) l ->
+  map canon (snd (fst (load_seq f l))) = map canon l.
+Proof.
+  intros H. induction H as [|x xs Hx _ IH]; [reflexivity|].
+  simpl. fold (load_seq f). unfold lres_arg in Hx.
+  destruct (f x) as [[r x'] ev]. simpl in Hx.
+  destruct r as [y|e]; simpl.
+  - destruct (load_seq f xs) as [[rs xs'] evs]. simpl in *. now rewrite Hx, IH.
+  - now rewrite Hx.
+Qed.
+
+Lemma load_items_arg (f : val -> lres) m :
+  Forall (fun kx => canon (lres_arg (f (snd kx))) = canon (snd kx)) m ->
+  map cv (snd (fst (load_items f m))) = map cv m.
+Proof.
+  intros H. induction H as [|[k x] xs Hx _ IH]; [reflexivity|].
+  simpl in *. fold (load_items f). unfold lres_arg in Hx.
+  destruct (f x) as [[r x'] ev]. simpl in Hx.
+  destruct r as [y|e]; simpl.
+  - destruct (load_items f xs) as [[rs xs'] evs]. simpl in *. unfold cv at 1 3. simpl. now rewrite Hx, IH.
+  - unfold cv at 1 3. simpl. now rewrite Hx.
+Qed.
+
+Lemma drop_jc_cons k x r :
+  drop_jc ((k, x) :: r) = if py_eq jsonclass_key k then drop_jc r else (k, x) :: drop_jc r.
+Proof. unfold drop_jc. cbn [filter fst]. destruct (py_eq jsonclass_key k); reflexivity. Qed.
+
+Lemma drop_jc_map_cv m : drop_jc (map cv m) = map cv (drop_jc m).
+Proof.
+  induction m as [|[k x] r IH]; [reflexivity|]. cbn [map]. unfold cv at 1. cbn [fst snd].
+  rewrite !drop_jc_cons. destruct (py_eq jsonclass_key k); cbn [map]; now rewrite IH.
+Qed.
+
+Lemma drop_jc_idem m : drop_jc (drop_jc m) = drop_jc m.
+Proof.
+  induction m as [|[k x] r IH]; [reflexivity|]. rewrite drop_jc_cons.
+  destruct (py_eq jsonclass_key k) eqn:Hk; [exact IH|]. rewrite drop_jc_cons, Hk. now rewrite IH.
+Qed.
+
+Lemma drop_jc_app a b : drop_jc (a ++ b) = (drop_jc a ++ drop_jc b)%list.
+Proof. unfold drop_jc. apply filter_app. Qed.
+
+Lemma py_eq_jc_refl : py_eq jsonclass_key jsonclass_key = true.
+Proof. reflexivity. Qed.
+
+Lemma dget_drop_jc_app m x :
+  dget (drop_jc m ++ [(jsonclass_key, x)]) "__jsonclass__" = Some x.
+Proof.
+  unfold dget. fold jsonclass_key. induction m as [|[k y] r IH]; [reflexivity|]. rewrite drop_jc_cons.
+  destruct (py_eq jsonclass_key k) eqn:Hk; [exact IH|].
+  cbn [app assoc]. rewrite Hk. exact IH.
+Qed.
+
+Lemma setattr_loop_arg E (f : val -> lres) m :
+  Forall (fun kx => canon (lres_arg (f (snd kx))) = canon (snd kx)) m ->
+  forall obj, map cv (snd (fst (setattr_loop E f m obj))) = map cv (drop_jc m).
+Proof.
+  intros H. induction H as [|[k x] xs Hx _ IH]; intros obj; [reflexivity|].
+  cbn [setattr_loop fst snd] in *. fold (setattr_loop E f). rewrite drop_jc_cons.
+  destruct (py_eq jsonclass_key k) eqn:Hk; [apply IH|].
+  unfold lres_arg in Hx. destruct (f x) as [[r x'] ev]. simpl in Hx.
+  destruct r as [y|e]; simpl.
+  - destruct (py_setattr E obj k y) as [obj'|e]; simpl.
+    + specialize (IH obj'). destruct (setattr_loop E f xs obj') as [[r2 more'] ev2]. simpl in *.
+      unfold cv at 1 3. simpl. now rewrite Hx, IH.
+    + unfold cv at 1 3. simpl. now rewrite Hx.
+  - unfold cv at 1 3. simpl. now rewrite Hx.
+Qed.
+
+Lemma canon_dict_unfold m :
+  canon (VDict m) =
+  VDict (drop_jc (map cv m) ++ match dget (map cv m) "__jsonclass__" with
+                               | Some x => [(jsonclass_key, x)] | None => [] end).
+Proof. reflexivity. Qed.
+
+Lemma canon_restored m rest' raw :
+  dget m "__jsonclass__" = Some raw ->
+  map cv rest' = map cv (drop_jc m) ->
+  canon (VDict (rest' ++ [(jsonclass_key, raw)])) = canon (VDict m).
+Proof.
+  intros Hraw Hrest. rewrite !canon_dict_unfold.
+  assert (Hget : dget (map cv m) "__jsonclass__" = Some (canon raw)).
+  { unfold dget, cv. rewrite assoc_map_values. unfold dget in Hraw. now rewrite Hraw. }
+  rewrite Hget.
+  assert (Hm : map cv (rest' ++ [(jsonclass_key, raw)]) = (drop_jc (map cv m) ++ [(jsonclass_key, canon raw)])%list).
+  { rewrite map_app, Hrest, drop_jc_map_cv. reflexivity. }
+  rewrite Hm, dget_drop_jc_app, drop_jc_app, drop_jc_idem.
+  rewrite drop_jc_cons. cbn [py_eq_jc_refl]. rewrite py_eq_jc_refl.
+  change (drop_jc []) with (@nil (val * val)). rewrite app_nil_r. reflexivity.
+Qed.
+
+Theorem load_pure E :
+  forall v cl, canon (lres_arg (jc_load_m fixed E cl v)) = canon v.
+Proof.
+  induction v using val_ind'; intros cl; try reflexivity; simpl.
+  1-4: pose proof (load_seq_arg (jc_load_m fixed E cl) l) as HL;
+       destruct (load_seq (jc_load_m fixed E cl) l) as [[r l'] ev]; unfold lres_arg; simpl in *;
+       f_equal; apply HL; eapply Forall_impl; [|exact H]; intros x Hx; apply Hx.
+  destruct (dhas m "__jsonclass__") eqn:Hd; simpl.
+  - destruct (descriptor_head E cl m) as [[new_obj|e] ev]; [|reflexivity].
+    unfold dhas in Hd. destruct (dget m "__jsonclass__") as [raw|] eqn:Hraw; [|discriminate].
+    pose proof (setattr_loop_arg E (jc_load_m fixed E cl) m) as HL.
+    assert (HF : Forall (fun kx => canon (lres_arg (jc_load_m fixed E cl (snd kx))) = canon (snd kx)) m).
+    { eapply Forall_impl; [|exact H]. intros [k x] [_ Hx]. apply Hx. }
+    specialize (HL HF new_obj).
+    destruct (setattr_loop E (jc_load_m fixed E cl) m new_obj) as [[r rest'] ev2].
+    unfold lres_arg. simpl in HL |- *.
+    assert (HR := canon_restored m rest' raw Hraw HL). simpl in HR.
+    destruct r; exact HR.
+  - pose proof (load_items_arg (jc_load_m fixed E cl) m) as HL.
+    assert (HF : Forall (fun kx => canon (lres_arg (jc_load_m fixed E cl (snd kx))) = canon (snd kx)) m).
+    { eapply Forall_impl; [|exact H]. intros [k x] [_ Hx]. apply Hx. }
+    specialize (HL HF).
+    destruct (load_items (jc_load_m fixed E cl) m) as [[r m'] ev]. unfold lres_arg. simpl in HL |- *.
+    fold cv. rewrite HL. reflexivity.
+Qed.
+
+(** ** The C15 statements *)
+
+Theorem dump_plain hfun E cfg sm ia ign v :
+  no_handlers cfg = true -> plain v = true ->
+  exists d, jc_dump hfun fixed E cfg sm ia ign v = Ok d /\ json_shape d = true.
+Proof.
+  intros Hh Hp. exists (norm v). split; [now apply dump_plain_norm | now apply norm_json_shape].
+Qed.
+
+Theorem dump_serialisable hfun E cfg sm ia ign v :
+  no_handlers cfg = true -> plain v = true -> str_keys v = true ->
+  exists d, jc_dump hfun fixed E cfg sm ia ign v = Ok d /\ is_json d = true.
+Proof.
+  intros Hh Hp Hs. exists (norm v). split; [now apply dump_plain_norm | now apply norm_is_json].
+Qed.
+
+Theorem backend_accepts (enc : val -> res str) hfun E cfg sm ia ign v :
+  (forall w, is_json w = true -> exists t, enc w = Ok t) ->
+  no_handlers cfg = true -> plain v = true -> str_keys v = true ->
+  exists d t, jc_dump hfun fixed E cfg sm ia ign v = Ok d /\ enc d = Ok t.
+Proof.
+  intros Henc Hh Hp Hs. destruct (dump_serialisable hfun E cfg sm ia ign v Hh Hp Hs) as [d [Hd Hj]].
+  destruct (Henc d Hj) as [t Ht]. eauto.
+Qed.
+
+Theorem roundtrip hfun E cfg sm ia ign v d cl :
+  no_handlers cfg = true -> plain v = true -> no_descriptor v = true ->
+  jc_dump hfun fixed E cfg sm ia ign v = Ok d ->
+  jc_load_m fixed E cl d = (Ok (norm v), d, []).
+Proof.
+  intros Hh Hp Hn Hd. rewrite (dump_plain_norm hfun fixed E cfg sm ia ign Hh v Hp) in Hd.
+  injection Hd as <-. apply load_json_id; [now apply norm_json_shape | now apply norm_no_descriptor].
+Qed.
+
+Theorem primitive_exact hfun E cfg sm ia ign v cl :
+  no_handlers cfg = true -> plain v = true -> no_descriptor v = true ->
+  exists d l, jc_dump hfun fixed E cfg sm ia ign v = Ok d /\ lres_val (jc_load_m fixed E cl d) = Ok l /\
+              leaves l = leaves v /\ forallb is_prim (leaves v) = true.
+Proof.
+  intros Hh Hp Hn. exists (norm v), (norm v).
+  pose proof (dump_plain_norm hfun fixed E cfg sm ia ign Hh v Hp) as Hd.
+  split; [exact Hd|]. rewrite (roundtrip hfun E cfg sm ia ign v (norm v) cl Hh Hp Hn Hd).
+  split; [reflexivity|]. split; [apply norm_leaves | now apply plain_leaves_prim].
 Qed.
